@@ -960,3 +960,176 @@ Proof.
   destruct (colorize (f_styles f) true (f_stack f) m) as [x1|k1], (colorize (f_styles f) false (f_stack f) m) as [x2|k2]; cbn [bind];
     split; intros [x Hx]; try discriminate; eauto; congruence.
 Qed.
+
+(* ================= J. building good texts: calm pieces, one behind the other ================= *)
+Local Close Scope Z_scope.
+Definition scan (a : str) : lexst := fold_left lex_step a lex_init.
+(* behind the text a no tag is pending, and the pending text does not end with a backslash: what follows is read as at the start *)
+Definition quiet (a : str) : Prop := l_cand (scan a) = CText /\ ends_with_bsl (l_cur (scan a)) = false.
+Lemma scan_app a b : l_cand (scan a) = CText -> scan (a ++ b) = glue (l_done (scan a)) (l_cur (scan a)) (scan b).
+Proof.
+  intros H. unfold scan. rewrite fold_left_app. fold (scan a). destruct (scan a) as [d c k]. cbn [l_cand l_done l_cur] in *. subst k.
+  change {| l_done := d; l_cur := c; l_cand := CText |} with (mk d c CText). now rewrite <- glue_init, glue_fold.
+Qed.
+Lemma glue_cur d c st : l_cur (glue d c st) = match l_done st with [] => c ++ l_cur st | _ => l_cur st end.
+Proof. unfold glue. destruct (l_done st) as [|[p t] r]; reflexivity. Qed.
+Lemma glue_done d c st : l_done (glue d c st) = match l_done st with [] => d | (p, t) :: r => d ++ (c ++ p, t) :: r end.
+Proof. unfold glue. destruct (l_done st) as [|[p t] r]; reflexivity. Qed.
+Lemma quiet_app a b : quiet a -> quiet b -> quiet (a ++ b).
+Proof.
+  intros [A1 A2] [B1 B2]. unfold quiet. rewrite (scan_app a b A1), glue_cand, glue_cur. split; [exact B1|].
+  destruct (l_done (scan b)); [|exact B2]. rewrite ends_app. destruct (l_cur (scan b)); [exact A2|exact B2].
+Qed.
+Lemma effect_app sty a b sk : quiet a -> effect sty false (a ++ b) sk = (do s1 <- effect sty false a sk; effect sty false b s1).
+Proof.
+  intros [A1 A2]. unfold effect. fold (scan (a ++ b)) (scan a) (scan b). rewrite (scan_app a b A1), glue_done.
+  destruct (l_done (scan b)) as [|[p t] r].
+  - destruct (segs_stack sty false true (l_done (scan a)) sk); reflexivity.
+  - rewrite segs_stack_app. destruct (segs_stack sty false true (l_done (scan a)) sk) as [s1|k]; cbn [bind]; [|reflexivity].
+    cbn [segs_stack]. rewrite !esc_of_false, ends_app.
+    assert ((match p with [] => ends_with_bsl (l_cur (scan a)) | _ :: _ => ends_with_bsl p end) = ends_with_bsl p) as ->
+      by (destruct p; [exact A2|reflexivity]).
+    destruct (tag_stack sty (ends_with_bsl p) t s1); reflexivity.
+Qed.
+Lemma app_split {X} (h : X) : forall a b x y, a ++ b = x ++ h :: y ->
+  (exists y', a = x ++ h :: y' /\ y = y' ++ b) \/ (exists x', x = a ++ x' /\ b = x' ++ h :: y).
+Proof.
+  induction a as [|c a IH]; intros b x y E; [right; exists x; auto|].
+  destruct x as [|z x]; cbn [app] in E.
+  - injection E as -> <-. left. exists a. auto.
+  - injection E as -> E. destruct (IH b x y E) as [(y' & -> & ->)|(x' & -> & ->)]; [left; exists y'; auto|right; exists x'; auto].
+Qed.
+Lemma nh_app a b : l_cand (scan a) = CText -> no_hyphen_in_tags a -> no_hyphen_in_tags b -> no_hyphen_in_tags (a ++ b).
+Proof.
+  intros Ha Na Nb X Y E. apply app_split in E as [(y' & -> & ->)|(x' & -> & ->)]; [now apply (Na X y')|].
+  fold (scan (a ++ x')). rewrite (scan_app a x' Ha), glue_cand. now apply (Nb x' Y).
+Qed.
+
+(* calm: quiet, no hyphen in a tag name, and neutral *)
+Definition calm (sty : styles) (a : str) : Prop := quiet a /\ no_hyphen_in_tags a /\ neutral sty false a.
+Lemma calm_nil sty : calm sty [].
+Proof. split; [split; reflexivity|]. split; [intros X Y E; destruct X; discriminate|intros sk; reflexivity]. Qed.
+Lemma calm_app sty a b : calm sty a -> calm sty b -> calm sty (a ++ b).
+Proof.
+  intros (A1 & A2 & A3) (B1 & B2 & B3). split; [now apply quiet_app|]. split; [apply nh_app; [apply A1|exact A2|exact B2]|].
+  intros sk. rewrite effect_app by exact A1. rewrite A3. cbn [bind]. apply B3.
+Qed.
+(* text without "<" *)
+Lemma scan_text t : no_lt t -> scan t = mk [] t CText.
+Proof. intros H. unfold scan, lex_init. now rewrite (lex_text t H [] []). Qed.
+Lemma nh_text t : no_lt t -> no_hyphen_in_tags t.
+Proof.
+  intros H X Y E. assert (no_lt X) as HX by (rewrite E in H; apply Forall_app in H; tauto).
+  fold (scan X). now rewrite (scan_text X HX).
+Qed.
+Lemma calm_text sty t : no_lt t -> ends_with_bsl t = false -> calm sty t.
+Proof.
+  intros H E. split; [unfold quiet; rewrite (scan_text t H); split; [reflexivity|exact E]|]. split; [now apply nh_text|].
+  intros sk. now apply effect_no_lt.
+Qed.
+(* a tag *)
+Definition tag_str (cl : bool) (nm : str) : str := LT :: (if cl then [SLASH] else []) ++ nm ++ [GT].
+Lemma scan_tag_from cl nm cur : tag_name nm -> no_lt cur ->
+  scan (cur ++ tag_str cl nm) = mk [(cur, Tag (tag_str cl nm) cl nm)] [] CText.
+Proof.
+  intros Hn Hc. unfold scan. rewrite fold_left_app. fold (scan cur). rewrite (scan_text cur Hc). unfold tag_str, mk.
+  now rewrite (lex_tag cl nm Hn [] cur).
+Qed.
+Lemma nh_tag_from cl nm cur : tag_name nm -> no_lt cur -> ~ In HY nm -> no_hyphen_in_tags (cur ++ tag_str cl nm).
+Proof.
+  intros Hn Hc Hh. apply nh_app; [now rewrite (scan_text cur Hc)|now apply nh_text|].
+  intros X Y E. exfalso. assert (In HY (tag_str cl nm)) as Hin by (rewrite E; apply in_or_app; right; now left).
+  unfold tag_str in Hin. destruct Hin as [Hin|Hin]; [discriminate|]. apply in_app_or in Hin as [Hin|Hin].
+  - destruct cl; [destruct Hin as [Hin|[]]; discriminate|destruct Hin].
+  - apply in_app_or in Hin as [Hin|[Hin|[]]]; [contradiction|discriminate].
+Qed.
+Lemma quiet_tag_from cl nm cur : tag_name nm -> no_lt cur -> quiet (cur ++ tag_str cl nm).
+Proof. intros Hn Hc. unfold quiet. rewrite (scan_tag_from cl nm cur Hn Hc). split; reflexivity. Qed.
+Lemma effect_tag_from sty cl nm cur sk : tag_name nm -> no_lt cur ->
+  effect sty false (cur ++ tag_str cl nm) sk = tag_stack sty (ends_with_bsl cur) (Tag (tag_str cl nm) cl nm) sk.
+Proof.
+  intros Hn Hc. unfold effect. fold (scan (cur ++ tag_str cl nm)). rewrite (scan_tag_from cl nm cur Hn Hc). cbn [mk l_done segs_stack].
+  rewrite esc_of_false. destruct (tag_stack sty (ends_with_bsl cur) _ sk); reflexivity.
+Qed.
+(* a tag behind a backslash: text *)
+Lemma calm_escaped sty cl nm t : tag_name nm -> ~ In HY nm -> no_lt t -> ends_with_bsl t = true -> calm sty (t ++ tag_str cl nm).
+Proof.
+  intros Hn Hh Ht He. split; [now apply quiet_tag_from|]. split; [now apply nh_tag_from|].
+  intros sk. rewrite (effect_tag_from sty cl nm t sk Hn Ht), He. reflexivity.
+Qed.
+(* a name that is no style: resolve answers None for it, and never raises, when it holds no "=" *)
+Lemma kv_no_eq s : ~ In EQS s -> kv_matches s = [].
+Proof.
+  intros H. unfold kv_matches.
+  assert (forall s k, ~ In EQS s -> fold_left kv_step s ([], KKey k) = ([], KKey (k ++ s))) as Hk.
+  { clear. induction s as [|c r IH]; intros k H; cbn [fold_left]; [now rewrite app_nil_r|]. unfold kv_step at 2.
+    destruct (N.eqb_spec c EQS) as [->|]; [exfalso; apply H; now left|]. rewrite IH by (intros Hin; apply H; now right).
+    now rewrite <- app_assoc. }
+  now rewrite (Hk s [] H).
+Qed.
+Definition style_of (sty : styles) (nm : str) : option pstyle := aget str_eqb (py_lower nm) sty.
+Lemma resolve_no_eq sty nm : ~ In EQS (py_lower nm) -> resolve sty (py_lower nm) = Ok (style_of sty nm).
+Proof. intros H. unfold resolve, style_of. destruct (aget str_eqb (py_lower nm) sty); [reflexivity|]. now rewrite (kv_no_eq _ H). Qed.
+Lemma pop_pushed st sk : pop_style st (sk ++ [st]) = Ok sk.
+Proof.
+  unfold pop_style. destruct (sk ++ [st]) eqn:E; [destruct sk; discriminate|]. rewrite <- E, rev_app_distr. cbn [rev app cut_rev].
+  now rewrite pstyle_eqb_refl, rev_involutive.
+Qed.
+(* a pair of tags around calm text *)
+Lemma calm_pair sty nm x : tag_name nm -> ~ In HY nm -> ~ In EQS (py_lower nm) -> calm sty x ->
+  calm sty (tag_str false nm ++ x ++ tag_str true nm).
+Proof.
+  intros Hn Hh He (X1 & X2 & X3).
+  pose proof (quiet_tag_from false nm [] Hn ltac:(constructor)) as Q1. pose proof (quiet_tag_from true nm [] Hn ltac:(constructor)) as Q2.
+  pose proof (nh_tag_from false nm [] Hn ltac:(constructor) Hh) as N1. pose proof (nh_tag_from true nm [] Hn ltac:(constructor) Hh) as N2.
+  cbn [app] in Q1, Q2, N1, N2.
+  split; [apply quiet_app; [exact Q1|now apply quiet_app]|].
+  split; [apply nh_app; [apply Q1|exact N1|apply nh_app; [apply X1|exact X2|exact N2]]|].
+  intros sk. rewrite effect_app by exact Q1. pose proof (effect_tag_from sty false nm [] sk Hn ltac:(constructor)) as E1. cbn [app] in E1.
+  rewrite E1. unfold tag_stack. cbn [ends_with_bsl rev andb]. rewrite (resolve_no_eq sty nm He). cbn [bind].
+  assert ((match nm with [] => true | _ => false end) = false) as Hnm by (destruct nm; [contradiction|reflexivity]).
+  destruct (style_of sty nm) as [st|] eqn:Es; cbn [bind].
+  - rewrite effect_app by exact X1. rewrite X3. cbn [bind].
+    pose proof (effect_tag_from sty true nm [] (sk ++ [st]) Hn ltac:(constructor)) as E2. cbn [app] in E2. rewrite E2.
+    unfold tag_stack. cbn [ends_with_bsl rev andb]. rewrite Hnm, (resolve_no_eq sty _ He), Es. cbn [bind]. apply pop_pushed.
+  - rewrite effect_app by exact X1. rewrite X3. cbn [bind].
+    pose proof (effect_tag_from sty true nm [] sk Hn ltac:(constructor)) as E2. cbn [app] in E2. rewrite E2.
+    unfold tag_stack. cbn [ends_with_bsl rev andb]. rewrite Hnm, (resolve_no_eq sty _ He), Es. reflexivity.
+Qed.
+(* a tag that is no style *)
+Lemma calm_inert sty nm : tag_name nm -> ~ In HY nm -> ~ In EQS (py_lower nm) -> style_of sty nm = None -> calm sty (tag_str false nm).
+Proof.
+  intros Hn Hh He Hs. pose proof (quiet_tag_from false nm [] Hn ltac:(constructor)) as Q1.
+  pose proof (nh_tag_from false nm [] Hn ltac:(constructor) Hh) as N1. cbn [app] in Q1, N1. split; [exact Q1|]. split; [exact N1|].
+  intros sk. pose proof (effect_tag_from sty false nm [] sk Hn ltac:(constructor)) as E1. cbn [app] in E1. rewrite E1.
+  unfold tag_stack. cbn [ends_with_bsl rev andb]. now rewrite (resolve_no_eq sty nm He), Hs.
+Qed.
+(* "<" followed by something that starts no tag: text *)
+Lemma scan_raw t c r : no_lt t -> tag_start c = false -> c <> SLASH -> no_lt (c :: r) -> scan (t ++ LT :: c :: r) = mk [] (t ++ LT :: c :: r) CText.
+Proof.
+  intros Ht Hc Hs Hr. unfold scan. rewrite fold_left_app. fold (scan t). rewrite (scan_text t Ht). cbn [fold_left]. unfold mk.
+  rewrite step_text_lt. inversion Hr as [|? ? Hc1 Hr']; subst.
+  assert (lex_step {| l_done := []; l_cur := t; l_cand := COpen |} c = {| l_done := []; l_cur := t ++ [LT; c]; l_cand := CText |}) as ->.
+  { unfold lex_step. cbn [l_done l_cur l_cand raw_of]. apply N.eqb_neq in Hc1, Hs. now rewrite Hc1, Hs, Hc. }
+  rewrite (lex_text r Hr'). now rewrite <- app_assoc.
+Qed.
+Lemma calm_raw sty t c r : no_lt t -> tag_start c = false -> c <> SLASH -> no_lt (c :: r) -> ends_with_bsl (c :: r) = false ->
+  calm sty (t ++ LT :: c :: r).
+Proof.
+  intros Ht Hc Hs Hr He.
+  split; [unfold quiet; rewrite (scan_raw t c r Ht Hc Hs Hr); split; [reflexivity|]|].
+  { cbn [mk l_cur]. change (t ++ LT :: c :: r) with (t ++ [LT] ++ c :: r). now rewrite app_assoc, ends_app. }
+  split.
+  - intros X Y E. change (t ++ LT :: c :: r) with (t ++ [LT] ++ (c :: r)) in E.
+    apply app_split in E as [(y' & -> & _)|(x' & -> & E)].
+    { apply Forall_app in Ht as [Ht _]. fold (scan X). now rewrite (scan_text X Ht). }
+    apply app_split in E as [(y' & E & _)|(x'' & -> & E)].
+    { destruct x' as [|z x']; [discriminate|]. destruct x'; discriminate. }
+    cbn [app]. destruct x'' as [|z x''].
+    + rewrite fold_left_app. fold (scan t). rewrite (scan_text t Ht).
+      cbn [fold_left]. unfold mk. now rewrite step_text_lt.
+    + cbn [app] in E. injection E as Ez E. subst z. assert (no_lt (c :: x'')) as Hzx.
+      { rewrite E in Hr. inversion Hr as [|? ? Hc0 Hr0]; subst. constructor; [assumption|]. apply Forall_app in Hr0. tauto. }
+      fold (scan (t ++ LT :: c :: x'')). now rewrite (scan_raw t c x'' Ht Hc Hs Hzx).
+  - intros sk. unfold effect. fold (scan (t ++ LT :: c :: r)). now rewrite (scan_raw t c r Ht Hc Hs Hr).
+Qed.
